@@ -167,6 +167,99 @@ theorem credential_unchanged (inHeader : Bool) (sent : String) (h : inHeader = f
     rw [if_neg]
     intro hh; exact h hh.2
 
+/-! ### credential fields: each is stripped exactly once per request -/
+
+/-- `n` stripping blocks applied to one value -/
+def stripN : Nat → String → String
+  | 0, v => v
+  | n + 1, v => stripN n (credential true v)
+
+theorem stripField_map (f : String) (p : Fields) :
+    stripField f p = p.map (fun gv => (gv.1, if gv.1 == f then credential true gv.2 else gv.2)) := by
+  induction p with
+  | nil => rfl
+  | cons gv rest ih => obtain ⟨g, v⟩ := gv; simp [stripField, ih]
+
+/-- the decoder strips a field as many times as the list it is given names it -/
+theorem decodeCreds_count (blocks : List String) (p : Fields) :
+    decodeCreds blocks p = p.map (fun gv => (gv.1, stripN (blocks.count gv.1) gv.2)) := by
+  induction blocks generalizing p with
+  | nil => simp [decodeCreds, stripN]
+  | cons b bs ih =>
+    have h : decodeCreds (b :: bs) p = decodeCreds bs (stripField b p) := rfl
+    rw [h, ih, stripField_map, List.map_map]
+    apply List.map_congr_left
+    intro gv _
+    simp only [Function.comp, List.count_cons]
+    by_cases hb : (b == gv.1) = true
+    · have hb' : (gv.1 == b) = true := by
+        have := eq_of_beq hb; subst this; exact beq_self_eq_true _
+      rw [if_pos hb, if_pos hb']; rfl
+    · have hb' : ¬ (gv.1 == b) = true := by
+        intro h'; apply hb
+        have := eq_of_beq h'; rw [this]; exact beq_self_eq_true _
+      rw [if_neg hb, if_neg hb']; rfl
+
+theorem appendCred_fold (fs acc : List String) (hacc : acc.Nodup) :
+    (fs.foldl appendCred acc).Nodup ∧ ∀ g, g ∈ fs.foldl appendCred acc ↔ g ∈ acc ∨ g ∈ fs := by
+  induction fs generalizing acc with
+  | nil => simp [hacc]
+  | cons f rest ih =>
+    simp only [List.foldl_cons]
+    by_cases hf : acc.contains f
+    · have e : appendCred acc f = acc := by unfold appendCred; rw [if_pos hf]
+      rw [e]
+      refine ⟨(ih acc hacc).1, fun g => ?_⟩
+      rw [(ih acc hacc).2 g]
+      have hm : f ∈ acc := List.contains_iff_mem.mp hf
+      constructor
+      · rintro (h | h)
+        · exact Or.inl h
+        · exact Or.inr (List.mem_cons_of_mem _ h)
+      · rintro (h | h)
+        · exact Or.inl h
+        · rcases List.mem_cons.mp h with rfl | h
+          · exact Or.inl hm
+          · exact Or.inr h
+    · have e : appendCred acc f = acc ++ [f] := by unfold appendCred; rw [if_neg hf]
+      have hm : f ∉ acc := fun h => hf (List.contains_iff_mem.mpr h)
+      have hn : (acc ++ [f]).Nodup := by
+        rw [List.nodup_append]
+        refine ⟨hacc, by simp, ?_⟩
+        intro a ha b hb
+        rcases List.mem_singleton.mp hb with rfl
+        intro e'; exact hm (e' ▸ ha)
+      rw [e]
+      refine ⟨(ih _ hn).1, fun g => ?_⟩
+      rw [(ih _ hn).2 g]
+      simp only [List.mem_append, List.mem_cons, List.not_mem_nil, or_false, or_assoc]
+
+/-- the list handed to the decoder names every credential field of the endpoint's header schemes
+    exactly once, however many schemes share a field -/
+theorem headerSchemes_count (fs : List String) (g : String) :
+    (headerSchemes fs).count g = if g ∈ fs then 1 else 0 := by
+  have h := appendCred_fold fs [] List.nodup_nil
+  unfold headerSchemes
+  rw [List.Nodup.count h.1]
+  simp [h.2 g]
+
+/-- **each credential is handed to the callbacks with its scheme prefix removed once**: the
+    decoded payload's field is `credential true <sent>` for a field some header scheme of the
+    endpoint reads, and untouched otherwise — for any number of schemes sharing the field -/
+theorem decodeEndpoint_once (fs : List String) (p : Fields) :
+    decodeEndpoint fs p = p.map (fun gv => (gv.1, if gv.1 ∈ fs then credential true gv.2 else gv.2)) := by
+  unfold decodeEndpoint
+  rw [decodeCreds_count]
+  apply List.map_congr_left
+  intro gv _
+  rw [headerSchemes_count]
+  by_cases h : gv.1 ∈ fs <;> simp [h, stripN]
+
+/-- what one block per scheme NAME did before commit ff8e971 (two JWT schemes, one `Token` field):
+    the second block removes the first word of the token itself -/
+theorem one_block_per_scheme_strips_twice :
+    decodeCreds ["Token", "Token"] [("Token", "Bearer y z")] = [("Token", "z")] := by decide
+
 /-! ### Non-vacuity -/
 def acc (ok : List String) : String → Bool := fun s => ok.contains s
 example : endpoint (acc ["jwt"]) [["basic", "jwt"], ["jwt"]] = ⟨["basic", "jwt"], none⟩ := by decide
@@ -174,5 +267,7 @@ example : endpoint (acc ["basic"]) [["basic", "jwt"], ["key"]] = ⟨["basic", "j
 example : endpoint (acc []) (effective true [["basic"]] [] []) = ⟨[], none⟩ := by decide
 example : credential true "Bearer a.b.c" = "a.b.c" := by decide
 example : credential false "a b" = "a b" := by decide
+example : decodeEndpoint ["Token", "Token", "Key"] [("Token", "Bearer y z"), ("Key", "k"), ("Other", "a b")]
+    = [("Token", "y z"), ("Key", "k"), ("Other", "a b")] := by decide
 
 end GoaVerif.Props.C06
